@@ -16,14 +16,17 @@ CLAIMED = {
               "are total over every uint32 code and equal the google.rpc.Code mapping table for 0..16 and the internal-error value otherwise "
               "(index obligations and table postconditions discharged); encodeGrpcMessage returns exactly the gRPC PROTOCOL-HTTP2 percent-encoding of "
               "its argument for every string (inductive loop invariant over a recursive encoded-length spec function); encError and the HttpBody codec contain no reachable panic "
-              "(they answer with a plain-text fallback when the status cannot be marshalled)."),
-        note=TRUST + "Not decided: what grpc-go / Twirp / WebSocket clients decode, the Twirp code names (a map in genproto), the codec lookup in encError (Go map, assumed to hold every negotiable type).",
+              "(they answer with a plain-text fallback when the status cannot be marshalled); serveGRPC has no reachable panic (a status whose details cannot be marshalled is sent without them); "
+              "the HTTP status written by encError is the mapped status of the error's code on both the Twirp and the negotiated path; twirpCodeName is exactly the Twirp table for codes 1..16 and never empty, "
+              "and encError passes it the status code; the codec picked for the error body is never nil under the registry invariant OffersOk."),
+        note=TRUST + "Not decided: what grpc-go / Twirp / WebSocket clients decode; OffersOk is a precondition of encError (NewMux offers exactly the registry keys, the JSON default is assumed registered).",
         ref="DESIGN.md section 5 C05"),
 }
 
 CLAIMED["C15"] = dict(
     text=("Proof, for all strings, that decodeTimeout accepts exactly the gRPC-legal timeouts (1-8 ASCII digits and a unit in HMSmun), "
-          "returns value x unit without overflow (clamped to MaxInt64) and refuses everything else; timeoutUnit is exact."),
+          "returns value x unit without overflow (clamped to MaxInt64) and refuses everything else; timeoutUnit is exact; in serveGRPC a request with a grpc-timeout creates exactly one deadline context, "
+          "that context is the one carried forward to the handler's stream, a request without the header creates none, and a refused timeout is never followed by the handler."),
     note=TRUST + "strconv.ParseUint is an assumed contract (listed in the evidence). Not decided: that the deadline fires, cancellation propagation, release of blocked Recv/Send (liveness over goroutines); the serveGRPC refusal path is added when its partial contract is discharged.",
     ref="DESIGN.md section 5 C15")
 
@@ -74,20 +77,21 @@ CLAIMED["C04"] = dict(
           "parsed weights are never negative; a header element list is abandoned only at its end or at a non-space character (optional white space around ',' hides nothing); "
           "the result is always one of the offers or the default; NewMux offers only registry keys. streamHTTP.writeMsg sets Content-Type before the first message whether or not headers were already sent. "
           "A response_body selector is resolved in the reply message type from rule.ResponseBody and every element is a singular message field (so applying it to a reply cannot panic); "
-          "writeAll refuses a unary reply iff it exceeds the send limit."),
+          "writeAll refuses a unary reply iff it exceeds the send limit. The Content-Encoding announced for a reply is the negotiated one and only when its compressor exists; "
+          "'identity' is announced for an error reply only after the pending compressor has been dropped (so no compressor bytes follow the error document); the Content-Type set is the reply's own."),
     note=TRUST + "Floats are reals. Not decided: that the body decodes to the reply (codec round trip inside protobuf-go), HttpBody passthrough bytes, gzip bytes and pooled gzip writers, the RFC 7231 preference order among admissible offers, that parseAccept's ranges are the header's ranges (only the list-continuation fact is proved).",
     ref="DESIGN.md sections 5 C04 and 10.3")
 CLAIMED["C07"] = dict(
     text=("Proof of the ordering facts that make path-bound fields authoritative: in serveHTTP the parameter list handed to the stream is queryParams ++ pathParams "
           "(every path capture after every query parameter, element-wise; append modelled exactly; a cover clause shows the case with several parameters on both sides is reachable); "
-          "params.set applies the list in slice order and walks only singular message fields (no panic) for well-formed field paths, which fieldPath guarantees for every key it resolves."),
+          "streamHTTP.RecvMsg applies the parameters after the body has been decoded, exactly once and on the first message only; params.set applies the list in slice order and walks only singular message fields (no panic) for well-formed field paths, which fieldPath guarantees for every key it resolves."),
     note=TRUST + "Assumed: protoreflect Set semantics (last write wins per field), parseQueryParams returning a fresh slice of well-formed params (trusted contract); the body is decoded before params are applied (program order in RecvMsg).",
     ref="DESIGN.md sections 5 C07 and 10.3")
 CLAIMED["C11"] = dict(
     text=("Partial proof. Publication: DropConn stores the state without the connection exactly when it was known and nothing otherwise; RegisterConn stores at most once and never on failure. "
           "Removal: removeHandler forgets the connection (map model) and unregisters a method whose last handler goes away before its rule is deleted; delRule prunes a trie node only when alive() is false and alive() is true for any node with methods, variables or child segments "
           "(dropping one connection cannot remove another service's routes); re-registering a connection with unchanged descriptors removes nothing; addRule on a binding that is already occupied "
-          "(second backend, re-registration, implicit /Service/Method path) compares with the occupying method and never dereferences nil; pickMethodHandler returns no handler together with an error."),
+          "(second backend, re-registration, implicit /Service/Method path) compares with the occupying method and never dereferences nil; pickMethodHandler returns one of the handlers registered for the method in the snapshot it is given, never reports a method with a live handler unimplemented, and returns no handler together with an error."),
     note=TRUST + "Go maps with string, integer and pointer keys are modelled (has / value / length per map); reflection fetch, descriptor hashing, the random choice among live backends and delivery to a backend are not decided; delRule not removing '*' bindings or additional bindings is outside the property as stated (stale routes answer Unimplemented).",
     ref="DESIGN.md sections 5 C11 and 10.3")
 CLAIMED["C12"] = dict(
@@ -100,12 +104,12 @@ CLAIMED["C12"] = dict(
 CLAIMED["C14"] = dict(
     text=("Partial proof of the per-function facts: isReservedHeader reserves every protocol-owned key (content-type, grpc-status, grpc-message, grpc-encoding, grpc-status-details-bin, grpc-timeout, te) for all strings; "
           "setOutgoingHeader never writes such a key from handler header/trailer metadata into the response and newIncomingContext never injects one into incoming metadata; "
-          "decodeBinHeader accepts exactly the texts that are valid padded or unpadded base64."),
+          "decodeBinHeader accepts exactly the texts that are valid padded or unpadded base64; in serveGRPC, after the header flush, handler metadata is written only through setOutgoingTrailer (trailer-prefixed keys), never as plain headers."),
     note=TRUST + "Assumed: base64 DecodeString succeeds exactly on valid text of its encoding (uninterpreted validity predicates with two axioms, listed). Not decided: lower-casing and value order (strings.ToLower, map iteration), byte-exactness of decoded values, trailer announcement and the gRPC-web trailer frame, net/http header canonicalisation.",
     ref="DESIGN.md sections 5 C14 and 10.3")
 CLAIMED["C16"] = dict(
     text=("Proof that registration never panics on any template and resolves selectors in the right message: the template lexer's emitted tokens are, for every input string, an accepting run of the template grammar's token automaton "
-          "(ghost run maintained by emit; nested variables rejected), it is memory-safe, terminates and accepts every LITERAL segment; addRule's token walk stays inside that run for every accepted template "
+          "(ghost run maintained by emit; nested variables rejected), it is memory-safe, terminates and accepts every LITERAL segment whatever literal character it starts with, and both wildcards; addRule's token walk stays inside that run for every accepted template "
           "(no index out of range, its three invalid(...) panics unreachable), hands only well-formed variable patterns to addVariable, never dereferences a nil method at an occupied binding, accepts a duplicate silently only for the same method (full name), "
           "resolves path variables and body in the request type and response_body in the reply type, and stores only selectors whose every element is a singular message field; fieldPath rejects paths through repeated/map fields; "
           "registerService publishes only on success. The representation invariant TrieOk (every trie node has its maps, no child segment is nil, every variable has a subtree; quantified over the objects allocated as nodes via dynamic type tags) "
@@ -115,7 +119,7 @@ CLAIMED["C16"] = dict(
 CLAIMED["C18"] = dict(
     text=("Partial proof (call counts, constructors, stream info): muxOptions.unary / stream invoke exactly one of interceptor and handler, once, on every path; the StreamServerInfo built for local and for proxied streaming methods carries the method's own name and "
           "its client/server streaming flags, the UnaryServerInfo the method name; gRPC RecvMsg/SendMsg and HTTP decodeRequestArgs/SendMsg emit exactly one payload event per message when a stats handler is installed and none when the call fails; "
-          "streamGRPC.SendHeader's stats block cannot dereference a nil compressor; inPayload / outPayload carry the client flag and lengths of their arguments; on every path of serveHTTP / serveGRPC the number of stats.Begin events equals the number of stats.End events (7 return sites violate this today: known findings)."),
+          "the stats.End event built in serveHTTP (HTTP and WebSocket branches) and serveGRPC carries the handler's error (checked on the argument of the HandleRPC call); streamGRPC.SendHeader's stats block cannot dereference a nil compressor; inPayload / outPayload carry the client flag and lengths of their arguments; on every path of serveHTTP / serveGRPC the number of stats.Begin events equals the number of stats.End events (7 return sites violate this today: known findings)."),
     note=TRUST + "Not decided: the generated gRPC glue invoking the interceptor, event ordering across handler-driven stream calls, that installing options never changes the outcome as a two-run equivalence (only the nil-dereference instance in SendHeader).",
     ref="DESIGN.md sections 5 C18 and 10.3")
 
